@@ -26,6 +26,7 @@ from pathlib import Path
 from .. import common
 from ..sexp import Sym, line as sx
 from . import c18_quoted as cq
+from . import c18_helpers as chh
 
 META = dict(
     text="PARTIAL. Proved in Lean for ALL strings (PPProofs/Props/C18.lean, over the regex-engine model "
@@ -60,7 +61,13 @@ META = dict(
          "NOT proved (search only, on the real code): value agreement with int()/float()/ipaddress/"
          "uuid/datetime/str.isidentifier; ipv6_address vs ipaddress; the QuotedString span; dbl/sgl/quoted_string + "
          "remove_quotes; nested_expr vs a bracket reader; DelimitedList min/max/trailing delimiter; counted_array exact "
-         "count. There is no Lean model of nested_expr/DelimitedList/counted_array yet. Two open known findings are "
+         "count when one int_expr object is shared; that helpers leave the expressions they are given as they were "
+         "(oracle-helper-args). counted_array (model PPModel/Mod/Counted.lean: intExpr + array_expr with the count action "
+         "binding array_expr to expr*n; PPProofs/Props/C18Counted.lean, full strength for every count/item expression and "
+         "text): counted_exact (a successful parse returns exactly the announced number of items), counted_reads_items / "
+         "rep_spec (they are the item expression applied n times in sequence), counted_fails_iff; correspondence "
+         "counted-array-vs-model for decimal/binary/hex Word counts. The copy of a caller-supplied int_expr is NOT modelled. "
+         "There is no Lean model of nested_expr/DelimitedList yet. Two open known findings are "
          "registered (ipv6_embedded_ipv4_forms, delimited_max1_trailing); quoted_numeric_escapes is fixed (31e7764) and "
          "its region (numeric escapes written by the reference encoder) is generated again.",
     note="Trusted: Lean kernel; axioms propext/Classical.choice/Quot.sound; the regex model (parser + matcher `m` + "
@@ -89,7 +96,7 @@ THEOREMS = [
     "PP.C18.mac_address_pattern_ast", "PP.C18.iso8601_date_pattern_ast", "PP.C18.iso8601_datetime_pattern_ast",
     "PP.C18.uuid_pattern_ast", "PP.C18.number_leaves_fact", "PP.C18.fraction_leaves_fact", "PP.C18.ipv6_leaves_fact",
     "PP.C18.dbl_quoted_string_fact", "PP.C18.sgl_quoted_string_fact", "PP.C18.quoted_string_fact",
-] + cq.THEOREMS
+] + cq.THEOREMS + chh.THEOREMS
 
 GEN_REL = "PPProofs/Props/Gen/Patterns.lean"
 
@@ -1415,7 +1422,7 @@ def run(ctx):
     gen_facts = precheck_facts(ctx, facts)
     qfacts = cq.facts_for_build(ctx, pp, lean_str)
     ok = ctx.proof_leg("PPProofs.Props.C18", THEOREMS,
-                       generated={GEN_REL: gen_patterns_lean(gen_facts), cq.GEN_REL: qfacts}, extra_modules=[cq.MODULE])
+                       generated={GEN_REL: gen_patterns_lean(gen_facts), cq.GEN_REL: qfacts}, extra_modules=[cq.MODULE, chh.MODULE])
     ok = ok and len(ctx.broken) == n_broken
     ctx.notes["generated_facts"] = {n: lv[:4] for n, lv in facts.items()}
     ctx.rule.append(
@@ -1445,7 +1452,16 @@ def run(ctx):
         "reset_pyparsing_context with newlines/CR/FF as content (20%); 40% mutated; vs a bracket reader parametrised by "
         "the whitespace set. The unusual characters also enter QuotedString contents and DelimitedList/counted_array "
         "mutations. oracle-delimited: delim x min x max x trailing x combine x item lists (max=1 with trailing "
-        "delimiter excluded: known finding). oracle-counted: announced vs real item count, decimal and binary counts")
+        "delimiter excluded: known finding). oracle-counted: announced vs real item count, decimal and binary counts. "
+        "oracle-helper-args: counted_array with six count syntaxes (binary/hex Word + action, pyparsing_common.integer itself, "
+        "a named copy, integer + a metadata word, the default) where ONE int_expr object is given to two counted_arrays and "
+        "used on its own before/between/after: each array against the reference reading (announced count vs items present, "
+        "named results), both arrays in one record, and the int_expr's and pyparsing_common.integer's own parse behaviour "
+        "unchanged; fixed scenarios with hand-written readings for DelimitedList(expr, delim), nested_expr(content=, "
+        "ignore_expr=), match_previous_literal/expr, original_text_for, ungroup/Group/Suppress/Combine/Opt, dict_of/Dict, "
+        "ZeroOrMore/OneOrMore(stop_on=), SkipTo(ignore=, fail_on=), Located, infix_notation, IndentedBlock: the same "
+        "argument objects in 2-5 helper calls, argument behaviour (tokens, named results, failure position - never names "
+        "or reprs) recorded before and compared after every call; each case inside reset_pyparsing_context")
     diffs = regex_correspondence(ctx, facts)
     boost = 1 if (ok and not diffs) else 4
     builtin_oracle(ctx, pp, facts, boost=boost)
@@ -1462,6 +1478,8 @@ def run(ctx):
     nested_oracle(ctx, pp)
     delimited_oracle(ctx, pp)
     counted_oracle(ctx, pp)
+    chh.counted_correspondence(ctx, pp)
+    chh.helper_args_oracle(ctx, pp)  # last: it hands objects of the package (pyparsing_common.integer) to helpers
     ctx.assumptions.append(
         "C18: agreement of converted values with int()/float()/ipaddress/uuid/datetime/str.isidentifier is checked by "
         "the oracle on generated inputs only (search; CPython library code has no model)")
@@ -1474,6 +1492,8 @@ def replay(data):
         return check_builtin(pp, case["builtin"], case["s"]) is not None
     if "ipv6" in case:
         return check_ipv6(pp, case["ipv6"]) is not None
+    if "helper_counted" in case or "helper_args" in case:
+        return chh.replay(pp, case)
     if "qsmodel" in case:
         return cq.check_model_quoted(pp, case["qsmodel"], case["inner"], case["expected"]) not in (None, "skip")
     if "quoted" in case:
